@@ -262,6 +262,26 @@ def rsa_low_hamming(r, bits=2048):
       return rsa_art(n, fam="low_hamming", expect=["CheckLowHammingWeight"])
 
 
+def rsa_lhw_suspected(r, bits=2048, w=None):
+  """Primes whose upper half has a low Hamming weight and whose lower half is
+  random: CheckLowHammingWeight reports 'suspected' (weak, no factors,
+  severity UNKNOWN by documented exception) after its full search (~12 s)."""
+  half = bits // 2
+  w = w or r.randint(3, 5)
+
+  def prime():
+    while True:
+      up = (1 << (half // 2 - 1)) | (1 << (half // 2 - 2))
+      for _ in range(w):
+        up |= 1 << r.randrange(0, half // 2 - 2)
+      v = (up << (half - half // 2)) | r.getrandbits(half - half // 2) | 1
+      if v.bit_length() == half and gmpy2.is_prime(v, 25):
+        return v
+
+  return rsa_art(prime() * prime(), fam="lhw_suspected",
+                 expect=["CheckLowHammingWeight"])
+
+
 def rsa_bit_pattern(r, bits=2048, psize=None):
   psize = psize or r.choice([8, 16, 32, 64, 127, 128, 255, 256, 255, 256])
   if psize >= 127:
@@ -576,15 +596,21 @@ class Issuer:
       raise ValueError(kind)
     return out
 
-  def u2f(self, r, count=2):
-    """Nonces of the form abababab cdcdcdcd ... (one byte per 32-bit word)."""
+  def u2f(self, r, count=2, negative=False):
+    """Nonces of the form abababab cdcdcdcd ... (one byte per 32-bit word);
+    negative=True uses n - K for some of them (still valid nonces; the
+    lattice then finds the relation with a negative combination)."""
     out = []
-    for _ in range(count):
+    for i in range(count):
       k = 0
       for j in range(0, self.c.bits, 32):
         k |= (0x01010101 * r.randrange(1, 256)) << j
-      out.append(self.make(r, k % int(self.c.n), "u2f", False,
-                           expect=["CheckCr50U2f"]))
+      k %= int(self.c.n)
+      fam = "u2f"
+      if negative and (i % 2 == 0 or r.random() < 0.5):
+        k = int(self.c.n) - k
+        fam = "u2f_negated"
+      out.append(self.make(r, k, fam, False))
     return out
 
 
